@@ -62,7 +62,7 @@ func (n *Number) AddFrac(b byte) {
 	switch {
 	case 0 < len(n.BigBuf):
 		n.BigBuf = append(n.BigBuf, b)
-	case n.Frac <= BigLimit:
+	case n.Div < BigLimit:
 		n.Frac = n.Frac*10 + uint64(b-'0')
 		n.Div *= 10.0
 		if math.MaxInt64 < n.Frac {
